@@ -187,6 +187,21 @@ func TestClean(t *testing.T) {
 					}
 				}
 			}
+			// history: another chain is read afterwards; the first result must be unchanged
+			if c.Oracle("C17") && rerr == nil && c.Bool("readOtherAfterwards") {
+				ch2, _ := drawChain(c)
+				ch2[0].ocsp = []byte("x")
+				for i := 1; i < len(ch2); i++ {
+					ch2[i].ocsp = nil
+				}
+				readChain(c, refEncode(ch2), core.ReaderPlan{ErrAt: -1})
+				for i, lc := range ch {
+					g := got[i]
+					if !bytes.Equal(g.Cert.Raw, lc.der) || !bytes.Equal(g.OCSPResponse, lc.ocsp) || !bytes.Equal(g.SCTList, lc.sct) {
+						c.Violation("roundtrip", "ReadCertChain/earlier-result-after-later-read", "certificate %d of the first chain changed after another chain was read", i)
+					}
+				}
+			}
 			c.Outcome("nt:ok")
 			c.Sig("m%d", plan.Mode)
 		})
